@@ -99,7 +99,7 @@ func genC12(rt *rapid.T) c12Case {
 		tags = append(tags, kv{p, strs([]string{tag})})
 		c.Model.Hosts = append(c.Model.Hosts, hostEntry{dom, tag, p}, hostEntry{"*." + dom, tag, p})
 		var pr productRules
-		kind := rapid.IntRange(0, 9).Draw(rt, "pkind") // 0: advanced only, 1: basic only, 2: neither, else both
+		kind := []int{3, 3, 0, 3, 1, 3, 2, 3, 3, 3}[rapid.IntRange(0, 9).Draw(rt, "pkind")] // 0: advanced only, 1: basic only, 2: neither, else both
 		if kind != 0 && kind != 2 {
 			pr.HasBasic = true
 			clusters := append(append([]string{}, c12Clusters...), advancedMode, advancedMode)
@@ -131,7 +131,7 @@ func genC12(rt *rapid.T) c12Case {
 		}
 		if kind != 1 && kind != 2 {
 			pr.HasAdv = true
-			n := rapid.IntRange(0, 5).Draw(rt, "nadv")
+			n := []int{2, 3, 1, 4, 0, 5}[rapid.IntRange(0, 5).Draw(rt, "nadv")]
 			var l []any
 			for j := 0; j < n; j++ {
 				r := advRule{genCond(rt), rapid.SampledFrom(c12Clusters).Draw(rt, "advcluster")}
